@@ -19,6 +19,7 @@ import (
 
 type hnJob struct {
 	Stream  string `json:"stream"` // "cs" | "cand" | "pair"
+	Alias   bool   `json:"alias"`  // events 1 and 3 carry the same value (the same state / candidate / pair object): equal values are still two events
 	NEvents int    `json:"nevents"`
 	Paths   string `json:"paths"` // lines {"kind":[...],"graceful":b,"path":[labels]}
 	Walks   int    `json:"walks"`
@@ -76,6 +77,8 @@ type hnRun struct {
 	kind     []string
 	graceful bool
 	prev     hnObs
+	am       sync.Mutex
+	seen1    int // alias mode: deliveries of the shared value so far
 	// handler-side bookkeeping
 	hm        sync.Mutex
 	delivered []int
@@ -103,14 +106,40 @@ func (r *hnRun) kindOf(e int) string {
 	return "fast"
 }
 
+// valOf is the value event e carries. Normally every event has a value of its own; in alias mode events 1 and 3 share one
+// (A, B, A): the notifier is told about events, not about values, so the second A is an event like any other.
+func (r *hnRun) valOf(e int) int {
+	if r.job.Alias && e == 3 {
+		return 1
+	}
+
+	return e
+}
+
+// eventOf maps a delivered value back to the event: the k-th delivery of a shared value is the k-th event that carries it
+// (the producer enqueues them in that order).
+func (r *hnRun) eventOf(val int) int {
+	if !r.job.Alias || val != 1 {
+		return val
+	}
+	r.am.Lock()
+	defer r.am.Unlock()
+	r.seen1++
+	if r.seen1 == 1 {
+		return 1
+	}
+
+	return 3
+}
+
 func (r *hnRun) enqueue(e int) {
 	switch r.job.Stream {
 	case "cs":
-		r.n.EnqueueConnectionState(ice.ConnectionState(e))
+		r.n.EnqueueConnectionState(ice.ConnectionState(r.valOf(e)))
 	case "cand":
-		r.n.EnqueueCandidate(r.cands[e])
+		r.n.EnqueueCandidate(r.cands[r.valOf(e)])
 	default:
-		r.n.EnqueueSelectedCandidatePair(r.pairs[e])
+		r.n.EnqueueSelectedCandidatePair(r.pairs[r.valOf(e)])
 	}
 }
 
@@ -554,9 +583,9 @@ func runNotifierGated(t *testing.T, job *hnJob, out *ndjson, st *tlStats, hp *hn
 			r.pairs = append(r.pairs, &ice.CandidatePair{})
 		}
 		r.n = ice.VerifNewNotifier(
-			func(cs ice.ConnectionState) { r.handler(int(cs)) },
-			func(c ice.Candidate) { r.handler(slices.Index(r.cands, c)) },
-			func(p *ice.CandidatePair) { r.handler(slices.Index(r.pairs, p)) },
+			func(cs ice.ConnectionState) { r.handler(r.eventOf(int(cs))) },
+			func(c ice.Candidate) { r.handler(r.eventOf(slices.Index(r.cands, c))) },
+			func(p *ice.CandidatePair) { r.handler(r.eventOf(slices.Index(r.pairs, p))) },
 		)
 		s.spawn("p", func() {
 			for e := 1; e <= job.NEvents; e++ {
